@@ -365,7 +365,62 @@ def run_case(workload, closes, plan, hook_raises=False, bc_raises=False):
 def gen_facts():
     return [C.gen_fact("lifecycle", k) for k in ("close_checks_closed_first", "close_sets_closed_before_io", "close_cleanup_in_finally", "close_swallows_eof",
                                                 "cleanup_hook_once_guard", "cleanup_clears_in_finally", "serve_read_eof_closes", "serve_dispatch_eof_closes",
-                                                "serve_all_finally_closes")]
+                                                "serve_all_finally_closes", "handle_close_guarded")]
+
+
+def close_serving_phase(ctx, model, facts):
+    """both sides close at once and one of them SERVES inside its own close(): close() sets the flag, then calls the before_closed hook
+    with self.root - a request when the root was never fetched, and the hook's documented use is to talk to the peer - during which the
+    peer's close request (already in the stream) is dispatched. One thread, real sockets (the request must be accepted by the transport
+    although the peer is gone). Demanded: the closing side ends clean, its hook has run once, close() raises nothing of its own."""
+    import socket as _socket
+    from rpyc.core.stream import SocketStream
+
+    class SvcH(rpyc.Service):
+        def __init__(self): self.hooks = 0
+        def on_disconnect(self, conn): self.hooks += 1
+        def exposed_add(self, a, b): return a + b
+    for variant in ("hook-calls-the-peer", "hook-idle-root-never-fetched"):
+        # TCP over loopback: the first write after the peer has closed is still accepted (a unix socketpair refuses it at once)
+        lst = _socket.socket(); lst.bind(("127.0.0.1", 0)); lst.listen(1)
+        s1 = _socket.create_connection(lst.getsockname()); s2, _ = lst.accept(); lst.close()
+        sa, sb = SvcH(), SvcH()
+        bc = (lambda root: root.add(1, 2)) if variant == "hook-calls-the-peer" else (lambda root: None)
+        A = Connection(sa, Channel(SocketStream(s1)), config={"before_closed": bc, "sync_request_timeout": 30})
+        B = Connection(sb, Channel(SocketStream(s2)), config={})
+        case = {"close_while_serving": variant}
+        ctx.case(("close-serving", variant), nontrivial=True, sample=case)
+        ctx.count("close-while-serving:" + variant)
+        raised = None
+        try:
+            with C.time_limit(60):
+                B.close()                   # its close request is now in A's stream, unread
+                import time as _t; _t.sleep(0.05)
+                try:
+                    A.close()
+                except BaseException as e:
+                    if isinstance(e, C.Hang):
+                        raise
+                    raised = type(e).__name__
+        except C.Hang as h:
+            ctx.violation("close-while-serving-hangs:" + variant, case, observed=str(h)[-300:], expected="close() returns", what="close() did not return")
+            continue
+        finally:
+            for s_ in (s1, s2):
+                try: s_.close()
+                except Exception: pass
+        final = {"closed": bool(A.closed), "hooks": sa.hooks, "has_root": A._local_root is not None, "chan_open": not A._channel.closed, "raised": raised}
+        if raised is not None or not (final["closed"] and final["hooks"] == 1 and not final["has_root"] and not final["chan_open"]):
+            ctx.violation("close-while-serving:" + str(raised) + ":hooks-%d" % sa.hooks, case, observed=final, expected="closed, hook once, clean, nothing raised",
+                          what="close() during whose before_closed/root request the peer's close request was served: the raw cleanup ran inside the handler and again at the end of close()")
+        if model is not None:
+            m = model.batch([[facts, 0, [[4, 1]], 1]])[0]          # ECloseServing with a write that meets EOFError (the peer is gone)
+            ctx.model_traces += 1
+            mside, mraised = m[0], m[1][0]
+            want_raised = {None: 0, "EOFError": 1, "AttributeError": 2}.get(raised, 3)
+            got = [int(final["closed"]), final["hooks"], int(final["has_root"]), int(final["chan_open"])]
+            if [int(x) for x in mside] != got or int(mraised) != want_raised:
+                ctx.tie_broken("correspondence:close-while-serving", "variant %s model %s raised %s impl %s raised %s" % (variant, mside, mraised, got, raised))
 
 
 def clean(sn):
@@ -523,6 +578,7 @@ def real_transport_phase(ctx):
 def run(ctx):
     model = C.Model("lifecycle"); model = model if model.available() else None
     facts = gen_facts()
+    close_serving_phase(ctx, model, facts)
     ctx.coverage_extra["rule"] = ("workloads {sync, async, nested callback, references both ways, fire-and-forget callback} x close orders {AB, BA, A, B, none}; for each a clean run counts the "
                                   "(AB/BA: the second side closes after it has noticed; A|B, B|A: both close at once, each with the other's close request unread) - a clean run counts the "
                                   "transport calls of both sides, then one failure is injected at every individual poll/read/write call index of each side, and for writes additionally after "
